@@ -650,6 +650,14 @@ def bounded(rep, tier):
             from mindsdb_sql.parser import ast
             if isinstance(orig, ast.Select) and orig.cte:
                 ctes = {c.name.parts[-1] for c in orig.cte}
+            # WITH clauses of nested selects (operands of set operations, sub-selects): their names are CTE references inside that select
+            nested_ctes = {}
+            for _pth, x_ in __import__('vlib.corpus', fromlist=['x']).walk_nodes(orig):
+                if isinstance(x_, ast.Select) and x_.cte and x_ is not orig:
+                    names_ = {c.name.parts[-1] for c in x_.cte}
+                    for t_ in tables_of(x_):
+                        if not any(t_ is tt for c in x_.cte for tt in tables_of(c.query)):
+                            nested_ctes.setdefault(id(t_), set()).update(names_)
             dml_targets = {id(x.table) for pth, x in __import__('vlib.corpus', fromlist=['x']).walk_nodes(orig) if isinstance(x, (ast.Insert, ast.Update, ast.Delete))}
             # a name inside the body of a CTE refers to an EARLIER CTE of that name only (a CTE does not see itself): `WITH t AS (SELECT * FROM t)` reads the table t
             visible = {}
@@ -660,7 +668,7 @@ def bounded(rep, tier):
                         visible[id(t_)] = set(earlier)
                     earlier.add(c_.name.parts[-1])
             for t in tables_of(orig):
-                if len(t.parts) == 1 and t.parts[0] in visible.get(id(t), ctes):
+                if len(t.parts) == 1 and (t.parts[0] in visible.get(id(t), ctes) or t.parts[0] in nested_ctes.get(id(t), ())):
                     continue
                 if id(t) in dml_targets:
                     continue                      # DML targets are named in the DML step, not fetched
